@@ -271,12 +271,21 @@ func VH_C08_SpecConformance() {
 	resp := []r8Hdr{{"X-Long", []string{long}}, {"Content-Type", []string{"text/html"}}}
 	reqH := http.Header{}
 	var req []r8Hdr
-	if vh.Choose(2) == 1 {
-		v1, v2 := vh.String("v1", 1), vh.String("v2", 2)
-		respH["Zz-Multi"] = []string{v1, v2}
-		resp = append(resp, r8Hdr{"Zz-Multi", []string{v1, v2}})
+	if mv := vh.Choose(4); mv >= 1 {
+		// a header with several field lines: two non-empty values, an EMPTY first value, two empty values
+		// (the combined value is the values joined by "," - also when some of them are empty)
+		vals := []string{vh.String("v1", 1), vh.String("v2", 2)}
+		switch mv {
+		case 2:
+			vals = []string{"", vh.String("v1", 1)}
+		case 3:
+			vals = []string{"", ""}
+		}
+		respH["Zz-Multi"] = vals
+		resp = append(resp, r8Hdr{"Zz-Multi", vals})
 		reqH["Accept"] = []string{"*/*"}
 		req = append(req, r8Hdr{"Accept", []string{"*/*"}})
+		vh.Assume(mv == 1 || (uc == 0 && ln == 1)) // the empty-value variants run with one URL and one value length
 	}
 	payload := vh.Bytes("payload", 2)
 	e := NewExchange(ver, url, method, reqH, status, respH, payload)
